@@ -280,6 +280,10 @@ func ConvertExtendedSpatialIDsToQuadkeysAndVerticalIDs(extendedSpatialIDs []stri
 		quadkeies := []int64{}
 		// 拡張空間IDを水平方向と垂直方向に分割する
 		indexes := strings.Split(spatialID, "/")
+		// 拡張空間IDのフォーマットチェック
+		if len(indexes) != 5 {
+			return []*object.FromExtendedSpatialIDToQuadkeyAndVerticalID{}, errors.NewSpatialIdError(errors.InputValueErrorCode, "")
+		}
 		indexesInt := []int64{}
 		for _, index := range indexes {
 			value, e := strconv.ParseInt(index, 10, 64)
@@ -840,6 +844,10 @@ func ConvertSpatialIDsToQuadkeysAndVerticalIDs(spatialIDs []string, outputHZoom 
 	extendedSpatialIDs := []string{}
 	for _, spatialID := range spatialIDs {
 		spatialIDValue := strings.Split(spatialID, "/")
+		// 空間IDのフォーマットチェック
+		if len(spatialIDValue) != 4 {
+			return []*object.FromExtendedSpatialIDToQuadkeyAndVerticalID{}, errors.NewSpatialIdError(errors.InputValueErrorCode, "")
+		}
 		// 水平精度/xインデックス/yインデックス/垂直精度/高さのインデックス に並び替える
 		extendedSpatialIDs = append(extendedSpatialIDs, spatialIDValue[0]+"/"+spatialIDValue[2]+"/"+spatialIDValue[3]+"/"+spatialIDValue[0]+"/"+spatialIDValue[1])
 	}
